@@ -144,9 +144,42 @@ def extract():
     if "let stream_id = self.table.next_id.fetch_add(1, Ordering::Relaxed);" not in ob: unrec.append("OpenHandler: id allocation")
     if "let (tx, rx) = sync_channel::<Msg>(self.opts.session_depth);" not in ob: unrec.append("OpenHandler: channel depth")
     if "compression: self.opts.compression as u8," not in ob: unrec.append("OpenHandler: compression tag")
+    # the whole registration sequence, so that anything slipped in between (a cap, an eviction, a reuse) is seen
+    if not ob.endswith("let stream_id = self.table.next_id.fetch_add(1, Ordering::Relaxed); let (tx, rx) = sync_channel::<Msg>(self.opts.session_depth); "
+                       "let opts = self.opts; thread::spawn(move || produce(body, tx, opts)); self.table.sessions.lock().unwrap().insert( stream_id, "
+                       "Arc::new(Mutex::new(Session { rx, lookahead: None, done: false, })), ); let resp = OpenResponse { version: SVS_VERSION, stream_id, "
+                       "format: self.format, compression: self.opts.compression as u8, }; beve_response(req, &resp)"):
+        unrec.append("OpenHandler: registration sequence")
+    if not re.search(r"let _ = match result \{ Ok\(\(\)\) => tx\.send\(Msg::End\), Err\((\w+)\) => tx\.send\(Msg::Fail\(\1\.to_string\(\)\)\), \};$", pb):
+        unrec.append("produce: terminal marker selection")
+    if _ws(fn_body(nimpl, "execution")) != "Execution::OffReader": unrec.append("NextHandler::execution")
+    m = re.search(r"const ASYNC_PULL_DEPTH: usize = (\d+);", src)
+    if not m or int(m.group(1)) < 1: unrec.append("ASYNC_PULL_DEPTH")
+    f["asyncPullDepth"] = int(m.group(1)) if m else 0
     cb = _ws(fn_body(impl_block(src, r"impl\s+HandlerErased\s+for\s+CancelHandler\s*\{"), "handle"))
     if not re.search(r"if let Ok\((\w+)\) = beve_from_slice::<CancelRequest>\(&req\.body\) \{ self\.table\.remove\(\1\.stream_id\); \}", cb):
         unrec.append("CancelHandler: remove")
+    # --- whole-body shapes of the three hot functions: the pieces above say what each statement does, this says that
+    # nothing else was slipped in between them (a direct path, a coalescing step, an early `continue`)
+    def canon(t, lastvar="last"):
+        t = t.replace("self.chunk_bytes <= self.buf.len()", "self.buf.len() >= self.chunk_bytes")
+        t = re.sub(r"data\.len\(\)\.min\(space\)|std::cmp::min\(space, data\.len\(\)\)|std::cmp::min\(data\.len\(\), space\)", "space.min(data.len())", t)
+        t = t.replace("Some(1u8)", "Some(1)")
+        if lastvar != "last": t = re.sub(r"\b" + re.escape(lastvar) + r"\b", "last", t)
+        return t
+    if canon(wbody) != ("let total = data.len(); while !data.is_empty() { let space = self.chunk_bytes - self.buf.len(); let take = space.min(data.len()); "
+                        "self.buf.extend_from_slice(&data[..take]); data = &data[take..]; if self.buf.len() >= self.chunk_bytes { self.send_chunk()?; } } Ok(total)"):
+        unrec.append("ChunkSink::write: whole body")
+    NEXT_CANON = ('let next: NextRequest = match beve_from_slice(&req.body) { Ok(v) => v, Err(_) => { return Ok(error_like( req, ErrorCode::InvalidBody, " ", )); } }; '
+                  'let Some(session) = self.table.get(next.stream_id) else { return Ok(error_like( req, ErrorCode::InvalidQuery, format!(" ", next.stream_id), )); }; '
+                  'let outcome = { let mut guard = session.lock().unwrap(); if guard.done { Err(" ".to_string()) } else { let pulled = guard.pull(); '
+                  'if matches!(pulled, Ok((_, true)) | Err(_)) { guard.done = true; } pulled } }; match outcome { Ok((chunk, last)) => { if last { self.table.remove(next.stream_id); } '
+                  'Ok(chunk_response(req, chunk, last)) } Err(msg) => { self.table.remove(next.stream_id); Ok(error_like(req, ErrorCode::InternalError, msg)) } }')
+    if nb.replace("Err(_) | Ok((_, true))", "Ok((_, true)) | Err(_)") != NEXT_CANON: unrec.append("NextHandler::handle: whole body")
+    if canon(al, lastv) != ("let body = next_request_body(stream_id)?; loop { let resp = client .svs_call( ROUTE_NEXT, QueryFormat::JsonPointer as u16, Some(&body), "
+                            "BodyFormat::Beve as u16, ) .await?; let last = resp.query.first().copied() == Some(1); "
+                            "if !resp.body.is_empty() && tx.send(resp.body).await.is_err() { return Ok(()); } if last { return Ok(()); } }"):
+        unrec.append("pull_loop_async: whole body")
     # --- formats, routes ---------------------------------------------------------------------------
     consts = strip(read("src/constants.rs"))
     m = re.search(r"pub enum BodyFormat\s*\{([^}]*)\}", consts)
